@@ -14,21 +14,21 @@ import (
 
 // ReplayFile is what a VIOLATION line points to.
 type ReplayFile struct {
-	Property   string                 `json:"property"`
-	Rule       string                 `json:"rule"`
-	Detail     string                 `json:"detail"`
-	Attempt    int                    `json:"attempt"`
-	Spec       CaseSpec               `json:"case"`
-	Minimised  bool                   `json:"minimised"`
-	TapeLen    int                    `json:"tape_length"`
-	OrigLen    int                    `json:"original_tape_length"`
-	Scenario   map[string]interface{} `json:"scenario"`
-	Events     []string               `json:"history_events,omitempty"`
-	Trace      []string               `json:"schedule_and_fault_trace"`
-	Observed   []string               `json:"observed"`
-	TraceHash  string                 `json:"trace_hash"`
-	ProcessDied bool                  `json:"process_died,omitempty"`
-	Stderr     string                 `json:"stderr_tail,omitempty"`
+	Property    string                 `json:"property"`
+	Rule        string                 `json:"rule"`
+	Detail      string                 `json:"detail"`
+	Attempt     int                    `json:"attempt"`
+	Spec        CaseSpec               `json:"case"`
+	Minimised   bool                   `json:"minimised"`
+	TapeLen     int                    `json:"tape_length"`
+	OrigLen     int                    `json:"original_tape_length"`
+	Scenario    map[string]interface{} `json:"scenario"`
+	Events      []string               `json:"history_events,omitempty"`
+	Trace       []string               `json:"schedule_and_fault_trace"`
+	Observed    []string               `json:"observed"`
+	TraceHash   string                 `json:"trace_hash"`
+	ProcessDied bool                   `json:"process_died,omitempty"`
+	Stderr      string                 `json:"stderr_tail,omitempty"`
 }
 
 func tapeLen(m map[string][]uint64) int {
